@@ -1366,3 +1366,191 @@ def rule_lk3(ctx, rels, scope=None):
     if n == 0:
         r.ok("LK3", "modules", ",".join(rels), "",
              "no item assignment into an untyped buffer")
+
+
+def rule_cast1(ctx, rels):
+    r = ctx.r
+    r.rule("CAST1", "'is this an integer dtype' is asked of the dtype's KIND "
+                    "(np.issubdtype(dt, np.integer), dt.kind in 'biu'), not "
+                    "of castability: np.can_cast(dtype, int) is False for "
+                    "uint64, so check_type(integer_type=False) leaves a "
+                    "uint64 `like` value integer and rotation_matrix / "
+                    "IdealPoint.from_angle truncate cos / sin into it "
+                    "(rotation_matrix(np.uint64(1)) is the zero matrix)")
+    n = 0
+    for rel in rels:
+        mod = ctx.p.module_by_rel(rel)
+        for f in ctx.p.all_functions:
+            if f.module is not mod:
+                continue
+            for c in ast.walk(f.node):
+                if not (isinstance(c, ast.Call)
+                        and dotted(c.func) in ("np.can_cast",
+                                               "numpy.can_cast")
+                        and len(c.args) >= 2):
+                    continue
+                to = c.args[1]
+                is_int = (isinstance(to, ast.Name) and to.id == "int") or \
+                    dotted(to) in ("np.int64", "np.int_", "np.integer") or (
+                        isinstance(to, ast.Constant)
+                        and to.value in ("int", "int64", "i8"))
+                if not is_int:
+                    continue
+                n += 1
+                r.analysed(f)
+                r.violation(
+                    "CAST1", f"{f.fq}|can_cast-int", loc(f, c),
+                    dotted(c)[:80],
+                    f"{f.qualname} decides 'integer dtype' with "
+                    f"`{dotted(c)[:50]}`: safe casting to a signed 64-bit "
+                    "integer excludes uint64 (and uintp), so an angle "
+                    "packaged as np.uint64 keeps an unsigned integer buffer "
+                    "and the sines and cosines written into it are "
+                    "truncated to 0 / 1", instance=f"{f.qualname}:can_cast")
+    if n == 0:
+        r.ok("CAST1", "modules", ",".join(rels), "",
+             "no castability test used as an integer-kind test")
+
+
+def rule_emath1(ctx, rels):
+    from ..norm import single_defs
+    r = ctx.r
+    r.rule("EMATH1", "np.emath.sqrt / np.emath.log / np.emath.power return "
+                     "a COMPLEX array as soon as one argument is negative: "
+                     "their result is never combined in place (`*=`, `/=`, "
+                     "`+=`, `-=`) into an array whose dtype was fixed "
+                     "earlier from caller data, unless that array was "
+                     "promoted first (astype / result_type / a complex "
+                     "buffer). `res[..., 0] *= eigenvalue` on a float `res` "
+                     "raises UFuncTypeError for exactly the real triples "
+                     "whose third point is not between the first two")
+    n = 0
+    for rel in rels:
+        mod = ctx.p.module_by_rel(rel)
+        for f in ctx.p.all_functions:
+            if f.module is not mod:
+                continue
+            defs = single_defs(f.node)
+            emath_names = {k for k, v in defs.items()
+                           if any(isinstance(c, ast.Call)
+                                  and dotted(c.func).startswith(
+                                      ("np.emath.", "np.lib.scimath."))
+                                  for c in ast.walk(v))}
+            if not emath_names:
+                continue
+            for st in ast.walk(f.node):
+                if not isinstance(st, ast.AugAssign):
+                    continue
+                if not any(isinstance(x, ast.Name) and x.id in emath_names
+                           for x in ast.walk(st.value)):
+                    continue
+                base = st.target
+                while isinstance(base, ast.Subscript):
+                    base = base.value
+                if not isinstance(base, ast.Name):
+                    continue
+                n += 1
+                r.analysed(f)
+                binds = [s.value for s in ast.walk(f.node)
+                         if isinstance(s, ast.Assign)
+                         and any(isinstance(t, ast.Name) and t.id == base.id
+                                 for t in s.targets)]
+                promoted = any(
+                    any(isinstance(c, ast.Call) and (
+                        (isinstance(c.func, ast.Attribute)
+                         and c.func.attr == "astype")
+                        or dotted(c.func) in ("np.result_type",
+                                              "np.promote_types",
+                                              "utils.complex_type")
+                        or any(k.arg == "dtype" and "complex" in dotted(
+                            k.value) for k in c.keywords))
+                        for c in ast.walk(b)) for b in binds)
+                inst = f"{f.qualname}:{base.id}"
+                if promoted:
+                    r.ok("EMATH1", inst + f"@{st.lineno}", loc(f, st),
+                         dotted(st)[:80], f"`{base.id}` is promoted first")
+                else:
+                    r.violation(
+                        "EMATH1", f"{f.fq}|{base.id}", loc(f, st),
+                        dotted(st)[:100],
+                        f"`{dotted(st)[:60]}` writes a possibly complex "
+                        f"np.emath result into `{base.id}`, whose dtype "
+                        "comes from the caller's data: for float or integer "
+                        "triples such as (0, 1, 2) or (1, inf, 0) the root "
+                        "is imaginary and the in-place product raises "
+                        "UFuncTypeError; the same triple typed complex "
+                        "works", instance=inst)
+    if n == 0:
+        r.ok("EMATH1", "modules", ",".join(rels), "",
+             "no in-place combination of an np.emath result")
+
+
+def rule_lk4(ctx):
+    r = ctx.r
+    r.rule("LK4", "item assignment into a composite object stores ANOTHER "
+                  "object's coordinates into the array the composite "
+                  "already has: `self.proj_data[key] = <data of value>` is "
+                  "preceded by a promotion of that array to the common type "
+                  "(np.result_type / astype). A composite built from "
+                  "integer literals (Point([[0, 0], [0, 0]], model='klein')) "
+                  "has an int64 array; storing float coordinates into it "
+                  "truncates them silently and the point read back is a "
+                  "different point")
+    PROJ = "geometry_tools/projective.py"
+    f = ctx.p.get_function(PROJ, "ProjectiveObject.__setitem__")
+    r.analysed(f)
+    vparam = f.params[2] if len(f.params) > 2 else None
+    if vparam is None:
+        r.note("LK4", loc(f, f.node), "__setitem__", "no value parameter")
+        return
+    defs = single_defs(f.node)
+
+    def from_value(e, depth=0):
+        for x in ast.walk(e):
+            if isinstance(x, ast.Name):
+                if x.id == vparam:
+                    return True
+                if x.id in defs and depth < 4 and from_value(defs[x.id],
+                                                             depth + 1):
+                    return True
+        return False
+    n = 0
+    for st in ast.walk(f.node):
+        if not (isinstance(st, ast.Assign) and len(st.targets) == 1
+                and isinstance(st.targets[0], ast.Subscript)
+                and dotted(st.targets[0].value) in ("self.proj_data",
+                                                    "self.aux_data",
+                                                    "self.dual_data")
+                and from_value(st.value)):
+            continue
+        n += 1
+        slot = dotted(st.targets[0].value)
+        promoted = False
+        for s2 in ast.walk(f.node):
+            if isinstance(s2, ast.Assign) and s2.lineno < st.lineno \
+                    and any(dotted(t) == slot for t in s2.targets) \
+                    and any(isinstance(c, ast.Call) and (
+                        (isinstance(c.func, ast.Attribute)
+                         and c.func.attr == "astype")
+                        or dotted(c.func) in ("np.result_type",
+                                              "np.promote_types"))
+                        for c in ast.walk(s2.value)):
+                promoted = True
+            # or a whole-array rebuild (np.array / concatenate of both)
+        inst = f"__setitem__:{slot}"
+        if promoted:
+            r.ok("LK4", inst, loc(f, st), dotted(st)[:80],
+                 "the stored array is promoted to the common type first")
+        else:
+            r.violation(
+                "LK4", f"{f.fq}|{slot}", loc(f, st), dotted(st)[:100],
+                f"`{dotted(st)[:70]}` writes the new member's coordinates "
+                f"into `{slot}` as it is typed: for a composite created "
+                "from integer-typed coordinates the float coordinates of "
+                "the assigned point are truncated -- pts[0] = "
+                "Point([.5, .2], model='klein') stores the origin, 0.60 "
+                "away, with no error", instance=inst)
+    if n == 0:
+        r.note("LK4", loc(f, f.node), "__setitem__",
+               "no item store of the value's data into a data slot "
+               "(not judged)")
